@@ -656,3 +656,371 @@ Proof.
               destruct Sw as [[_ ->]|[_ ->]]; discriminate.
       * left. destruct (cur_same m op o) as [E1 E2]; [left; exact N6|]. auto.
 Qed.
+
+(** ---- level arithmetic of the monitor's sync bookkeeping ---- *)
+Lemma lvl2_iff lo ss k : lvl lo ss k = 2 <-> should lo k = true.
+Proof.
+  unfold lvl. destruct (should lo k); [split; auto|]. destruct (_ <? _); split; intros H; discriminate.
+Qed.
+
+Lemma lvl_enter lo ss i k : k_step k < i -> lvl lo i k = Nat.max (lvl lo ss k) 1.
+Proof.
+  intros H. unfold lvl. destruct (should lo k); [reflexivity|].
+  destruct (Nat.ltb_spec (k_step k) i); [|lia]. destruct (_ <? _); reflexivity.
+Qed.
+
+Lemma lvl_done lo ss k b i : (forall j, lo = Some j -> j <= ss) -> k_step k < i ->
+  lv_next (lvl lo ss k) (ASyncDone b) = lvl (Some ss) (if b then i else ss) k.
+Proof.
+  intros H1 H3. unfold lvl, should.
+  assert (Hs : match lo with Some j0 => (k_step k <? j0) | None => false end = true -> (k_step k <? ss) = true).
+  { destruct lo as [j|]; [|discriminate]. specialize (H1 j eq_refl). intros H. apply Nat.ltb_lt in H. apply Nat.ltb_lt. lia. }
+  destruct (match lo with Some j0 => (k_step k <? j0) | None => false end) eqn:E1.
+  - rewrite (Hs eq_refl). destruct b; reflexivity.
+  - destruct (Nat.ltb_spec (k_step k) ss) as [Hlt|Hge]; destruct b; cbn [lv_next]; try reflexivity.
+    + destruct (Nat.ltb_spec (k_step k) i); [reflexivity|lia].
+    + destruct (Nat.ltb_spec (k_step k) ss); [lia|reflexivity].
+Qed.
+
+(** ---- trajectories on which the put loop cannot reach a DataSyncer call ---- *)
+Definition nos (p : ppc) : bool :=
+  match p with
+  | PW _ WAcquire | PW _ WGetState | PW _ (WWriting _) | PW _ (WSleep _) | PExit | PSyncSleep _ _ _ => true
+  | _ => false
+  end.
+
+Lemma nos_traj f rw x1 x2 : good (x_sys x1) -> nos (s_p (x_sys x1)) = true -> quiesce cfg f rw x1 = Ok x2 ->
+  nos (s_p (x_sys x2)) = true.
+Proof.
+  intros G Hn H.
+  destruct (quiesce_ind cfg alloc oldest init t0 (fun xc => nos (s_p (x_sys xc)) = true)) with (f := f) (rw := rw) (x := x1) (x2 := x2)
+    as [Q _]; auto.
+  intros x t x' P Gx Hi Ht. destruct (tstep_ok _ _ _ _ _ Ht) as [Hs _].
+  pose proof (good_inv1 _ _ _ _ _ _ Gx) as II.
+  destruct t; cbn [step t_internal] in *.
+  - rewrite (rstep_frame _ _ _ _ II Hs). exact P.
+  - destruct (pstep_shape _ _ _ _ II Hs) as [_ [_ [Sh _]]]. revert Sh P Hi. unfold p_internal, p_in_io, p_in_timer.
+    destruct (s_p (x_sys x)) as [| | | | | | | |k w|]; cbn; try discriminate; intros Sh P Hi.
+    + destruct Sh as [[w' [-> Sw]]|[-> _]]; [|discriminate P].
+      destruct w; cbn in Hi; try discriminate Hi.
+      * subst w'. reflexivity.
+      * destruct Sw as [st ->]. reflexivity.
+      * destruct Sw.
+    + destruct Sh.
+Qed.
+
+Lemma quiet_cancel_nos s : inv1 s -> quiet cfg s -> s_cancel s = true -> nos (s_p s) = true \/ is_syncing s = true.
+Proof.
+  intros II [_ Qp] Hc.
+  destruct (s_p s) as [|ch|ch|dl|keep|keep final|keep final|keep final dl|keep w|] eqn:Ep; auto;
+    try (exfalso; unfold p_internal, p_in_io, p_in_timer, enabled in Qp; cbn [step] in Qp; unfold pstep in Qp;
+         rewrite Ep in Qp; cbn in Qp; rewrite ?Hc in Qp; cbn in Qp;
+         try (revert Qp; match goal with |- context [is_closed ?h ?c] => destruct (is_closed h c) end; intros Qp; cbn in Qp);
+         try (revert Qp; match goal with |- context [negb ?k && negb ?f] => destruct k, f end; intros Qp; cbn in Qp);
+         discriminate Qp).
+  - right. unfold is_syncing. rewrite Ep. reflexivity.
+  - destruct w; auto. exfalso.
+    destruct (holder_enabled_p cfg s II) as [H|H]; [unfold p_holds; rewrite Ep; reflexivity| |congruence].
+    unfold p_in_io in H. rewrite Ep in H. discriminate.
+Qed.
+
+Lemma quiet_not_syncret s k f : quiet cfg s -> s_p s <> PSyncRet k f.
+Proof.
+  intros [_ Qp] E. unfold p_internal, p_in_io, p_in_timer, enabled in Qp. cbn [step] in Qp. unfold pstep in Qp.
+  rewrite E in Qp. cbn in Qp. destruct (negb k && negb f); discriminate.
+Qed.
+
+Lemma r_internal_with_p s pc : r_internal cfg (with_p s pc) = r_internal cfg s.
+Proof.
+  unfold r_internal, r_in_io, r_in_timer, enabled. cbn [step]. unfold rstep. cbn [s_r with_p].
+  destruct (s_r s) as [| |w]; cbn; try reflexivity.
+  - destruct (is_closed _ _); reflexivity.
+  - unfold wstep. destruct w; cbn; try reflexivity.
+    + destruct (s_store s); reflexivity.
+    + destruct (get_persistent_state _) as [[p' st]|]; reflexivity.
+    + destruct (notify_state_written _); reflexivity.
+Qed.
+
+(** ---- the sync bookkeeping of the monitor against the model ---- *)
+Lemma series_eq m op res x1 x2 : mid1 cfg m op res x2 x1 -> qtraj x1 x2 ->
+  ms_new_sync m (enc_obs res x2) && negb (ms_retry m op (enc_obs res x2)) = entered x1 x2.
+Proof.
+  intros [_ _ _ _ M5 M6 _] [_ _ _ _ Q5 _ _ Q8 _]. rewrite new_sync_eq. unfold entered.
+  destruct (is_syncing (x_sys x2)) eqn:E2; [|rewrite andb_false_r; reflexivity]. cbn [andb]. rewrite andb_true_r.
+  destruct (is_syncing (x_sys x1)) eqn:E1; cbn [negb].
+  - destruct Q5 as [Q5 _]. destruct M6 as [M6|[M6 [_ M6']]].
+    + assert ((m_nsy m <? x_nsy x2) = false) as -> by (apply Nat.ltb_ge; lia). reflexivity.
+    + rewrite M6'. apply andb_false_r.
+  - destruct M6 as [M6|[_ [M6 _]]]; [|congruence]. rewrite ?E1, ?E2 in Q5. cbv iota in Q5.
+    assert ((m_nsy m <? x_nsy x2) = true) as -> by (apply Nat.ltb_lt; lia). cbn [andb].
+    destruct (ms_retry m op (enc_obs res x2)) eqn:Er; [exfalso|reflexivity].
+    destruct (M5 eq_refl) as [Hs|Hs]; [|congruence].
+    unfold is_syncing in E2. rewrite (Q8 Hs) in E2. unfold is_sleep in Hs. destruct (s_p (x_sys x1)); discriminate.
+Qed.
+
+Lemma no_entry_fin m x x1 f rw x2 : rel1 m x -> good (x_sys x1) ->
+  s_p (x_sys x1) = s_p (x_sys x) -> s_cancel (x_sys x1) = s_cancel (x_sys x) ->
+  quiesce cfg f rw x1 = Ok x2 -> entered x1 x2 = false.
+Proof.
+  intros R G1 Ep Ec Hq. pose proof (quiesce_traj _ _ _ _ _ _ _ _ _ G1 Hq) as Q.
+  destruct (quiesce_ind cfg alloc oldest init t0 (fun _ => True) (fun _ _ _ _ _ _ _ => I) f rw x1 x2 G1 I Hq) as [_ G2].
+  unfold entered. destruct (is_syncing (x_sys x1)) eqn:E1; [reflexivity|]. cbn [negb andb].
+  destruct (is_syncing (x_sys x2)) eqn:E2; [exfalso|reflexivity].
+  unfold is_syncing in E2. destruct (s_p (x_sys x2)) as [| | | | |k f0| | | |] eqn:Ep2; try discriminate.
+  destruct k.
+  - destruct (q_keep _ _ Q) as [H|H]; [right; eauto| |].
+    + rewrite Ep in H. eapply quiet_not_notify; [apply (r1_quiet _ _ _ _ _ _ _ R)|exact H].
+    + unfold is_syncing in E1. rewrite H, Ep2 in E1. discriminate.
+  - destruct G2 as [_ [_ K]]. unfold keepc in K. rewrite Ep2 in K.
+    rewrite (q_cancel _ _ Q), Ec in K.
+    destruct (quiet_cancel_nos _ (good_inv1 _ _ _ _ _ _ (r1_good _ _ _ _ _ _ _ R)) (r1_quiet _ _ _ _ _ _ _ R) K) as [H|H].
+    + rewrite <- Ep in H. pose proof (nos_traj _ _ _ _ G1 H Hq) as H2. rewrite Ep2 in H2. discriminate.
+    + unfold is_syncing in H, E1. rewrite <- Ep in H. congruence.
+Qed.
+
+(** after a successful DataSyncer call the put loop's next step is NotifySyncCompleted *)
+Lemma syncret_cases m x op x1 res xo : rel1 m x -> tri cfg op x x1 res ->
+  (ms_sync_ok op (enc_obs res xo) = true /\ exists k f, x_sys x1 = with_p (x_sys x) (PSyncRet k f) /\ x_nwr x1 = x_nwr x
+                                                      /\ same_counters x x1 /\ tag op = 5%Z) \/
+  (ms_sync_ok op (enc_obs res xo) = false /\ forall k f, s_p (x_sys x1) <> PSyncRet k f).
+Proof.
+  intros R T. pose proof (r1_good _ _ _ _ _ _ _ R) as G. pose proof (good_inv1 _ _ _ _ _ _ G) as II.
+  pose proof (r1_quiet _ _ _ _ _ _ _ R) as Qx.
+  unfold ms_sync_ok, ms_sync_done, ms_hit. rewrite obs_nth0.
+  destruct T as [[-> Hn]|[[e [He [Hs [En1 En2]]]]|[t [a [[Hres [Hat Hth]] Ht]]]]].
+  - right. split; [|intros k f; apply quiet_not_syncret; exact Qx].
+    destruct Hn as [Hn1 _]. destruct (Z.eqb_spec (tag op) 5) as [E|E]; [rewrite Hn1 by auto|]; reflexivity.
+  - right. assert (Hne : forall t a, e <> EStep t a) by (intros t a E; subst e; exact He).
+    destruct (env_frame cfg _ _ _ Hne Hs) as [_ Ep]. destruct (env_ok_code _ _ _ _ He) as [_ [_ [_ [Hc5 _]]]].
+    split; [destruct (Z.eqb_spec (tag op) 5); [contradiction|reflexivity]|].
+    intros k f. rewrite Ep. apply quiet_not_syncret; exact Qx.
+  - destruct (tstep_ok _ _ _ _ _ Ht) as [Hs [Hcnt [Hwr _]]].
+    destruct (thr_act_none _ _ _ _ _ (conj Hres (conj Hat Hth))) as [_ Hng]. rewrite Hng in Hwr.
+    destruct t; cbn [step] in Hs.
+    + right. pose proof (rstep_frame _ _ _ _ II Hs) as Ep. split.
+      * destruct Hth as [[E [Et _]]|[[E _]|[E _]]]; [discriminate Et|rewrite E; reflexivity|rewrite E; reflexivity].
+      * intros k f. rewrite Ep. apply quiet_not_syncret; exact Qx.
+    + destruct (pstep_shape _ _ _ _ II Hs) as [_ [_ [Sh _]]].
+      destruct Hth as [[E5 [_ [Hsyn Hok]]]|[[E6 [Hwr6 _]]|[E8 [Hok [[_ [Et _]]|[_ [_ [dl [Hat' _]]]]]]]]].
+      * unfold is_syncing in Hsyn. revert Sh Hs. unfold pstep.
+        destruct (s_p (x_sys x)) as [| | | | |k f| | | |]; try discriminate. intros Sh Hs.
+        rewrite E5, Hres. change (Z.eqb 5 5 && Z.eqb (tag (L [A 1%Z])) 1) with true. cbn [andb]. rewrite <- Hok.
+        destruct (a_ok a).
+        -- left. split; [reflexivity|]. exists k, f. inversion Hs. splits; auto.
+        -- right. split; [reflexivity|]. destruct Sh as [[Hc _]|[_ Sh]]; [discriminate|]. intros k' f'. rewrite Sh. discriminate.
+      * right. split; [rewrite E6; reflexivity|].
+        destruct (writer_cases _ _ Hwr6) as [[Et _]|[_ [k [st Ep]]]]; [discriminate Et|]. rewrite Ep in Sh.
+        intros k' f'. destruct Sh as [[w' [-> _]]|[_ ->]]; [discriminate|destruct k; discriminate].
+      * discriminate Et.
+      * right. split; [rewrite E8; reflexivity|]. intros k' f'.
+        destruct Hat' as [Ep|[[k [f Ep]]|[k Ep]]]; rewrite Ep in Sh.
+        -- destruct Sh as [[_ [-> _]]|[-> _]]; discriminate.
+        -- rewrite Sh. discriminate.
+        -- destruct Sh as [[w' [-> _]]|[_ ->]]; [discriminate|destruct k; discriminate].
+Qed.
+
+Lemma F2_conj {A B} (R R' : A -> B -> Prop) l1 l2 : Forall2 R l1 l2 -> Forall2 R' l1 l2 ->
+  Forall2 (fun a b => R a b /\ R' a b) l1 l2.
+Proof. intros F. induction F; intros F'; inversion F'; subst; constructor; auto. Qed.
+
+Lemma zm_of_cov sb lo ss blks popped upl acks gs p ups xb na :
+  cov sb lo ss blks popped upl acks gs p ups xb na ->
+  Forall2 (fun k g => o_block (g_o g) < totalReleased p -> zmem (k_loc k) popped = true) acks gs.
+Proof.
+  intros [C1 C2 C3 C4 C5 C6 C7 C8]. eapply F2_impl2; [|exact C8]. intros k g [H1 _] Hlt.
+  apply zmem_in. rewrite <- C2 in Hlt. rewrite nth_error_app1 in H1 by exact Hlt. eapply nth_error_In; eauto.
+Qed.
+
+(** the monitor's record of the state write in flight *)
+Lemma nc_eq m op res x2 nw0 cur_c :
+  let o := enc_obs res x2 in
+  inv3 (x_sys x2) -> nw0 = m_nwr m ->
+  ((x_nwr x2 = nw0 /\ cur_c = ms_cur0 m op o) \/
+   (x_nwr x2 = S nw0 /\ exists t st, written_state (x_sys x2) t = Some st
+      /\ cur_c = Some (mkPendw (enc_st st) (ms_last_ok m op o) (ms_popped m op o)))) ->
+  ms_nc m op o (ms_popped m op o) = (x_nwr x2, cur_c).
+Proof.
+  intros o I3 -> H. subst o. unfold ms_nc.
+  destruct H as [[E1 E2]|[E1 [t [st [Hw E2]]]]].
+  - assert (Hcase : (exists t st, written_state (x_sys x2) t = Some st) \/ (forall t st, written_state (x_sys x2) t <> Some st)).
+    { destruct (written_state (x_sys x2) TR) as [st|] eqn:Er; [left; eauto|].
+      destruct (written_state (x_sys x2) TP) as [st|] eqn:Ep; [left; eauto|].
+      right. intros t st. destruct t; congruence. }
+    destruct Hcase as [[t [st Hw]]|Hno].
+    + destruct (wobs_writer res x2 t st I3 Hw) as [w [Hw1 [Hw2 _]]]. rewrite Hw1, Hw2.
+      assert ((m_nwr m <? x_nwr x2) = false) as -> by (apply Nat.ltb_ge; lia). congruence.
+    + rewrite (wobs_none res x2 Hno). congruence.
+  - destruct (wobs_writer res x2 t st I3 Hw) as [w [Hw1 [Hw2 Hw3]]]. rewrite Hw1, Hw2, Hw3.
+    assert ((m_nwr m <? x_nwr x2) = true) as -> by (apply Nat.ltb_lt; lia). congruence.
+Qed.
+
+Lemma finish2 rem m op res xs x2 gsS Etot1 loX ssX :
+  let o := enc_obs res x2 in
+  let i := m_step m in
+  let m' := mon_step (c_interval cfg) m op o in
+  rel1 m' x2 ->
+  covx (S i) loX ssX (fst (ms_bp m op o)) (ms_popped m op o) (ms_upl m op o) (ms_acks m op o) gsS xs ->
+  ctraj (ms_acks m op o) gsS (ms_cur0 m op o) (ms_last_ok m op o) (ms_popped m op o) Etot1 (S i) xs x2 ->
+  inv3 (x_sys x2) ->
+  Forall2 (fun k g => g_lv (lift (entered xs x2) g) = lvl (ms_last_ok m op o) (ms_series m op o) k) (ms_acks m op o) gsS ->
+  Etot1 + length (epochSeeds (s_pbl (x_sys xs))) + rem < N.to_nat M32 ->
+  x_nwr xs = m_nwr m ->
+  ms_series m op o <= S i -> (forall j, ms_last_ok m op o = Some j -> j <= ms_series m op o) ->
+  rel2 rem m' x2.
+Proof.
+  intros o i m' R1 C CT I3 Hlv Hb Hnw Hs1 Hs2.
+  destruct CT as [T1 T2 T3 [cur_c [T4 T4']] T5 T6 T7 T8 [T9a [T9b T9c]]].
+  destruct C as [C1 C2 C3 C4 C5 C6 C7 C8].
+  assert (Hnc : ms_nc m op o (ms_popped m op o) = (x_nwr x2, cur_c)).
+  { apply (nc_eq m op res x2 (x_nwr xs) cur_c I3 Hnw). exact T4'. }
+  constructor.
+  - exact R1.
+  - exists (map (lift (entered xs x2)) gsS). unfold m'. rewrite mon_step_eq.
+    cbn [m_step m_last_ok_start m_series_start m_blocks m_popped m_upl m_acks].
+    unfold covx. rewrite T8, T9c, T9a. constructor; auto.
+    + rewrite T5. exact C1.
+    + rewrite T7. exact C2.
+    + apply F2_map_r. eapply F2_impl2; [|exact (F2_conj _ _ _ _ C8 Hlv)].
+      intros k g [[H1 [H2 _]] H3]. splits; auto. destruct (entered xs x2); exact H1.
+  - unfold m'. rewrite mon_step_eq. cbn [m_step m_last_ok_start m_series_start]. auto.
+  - unfold m'. rewrite mon_step_eq. cbn [m_nwr]. fold o. rewrite Hnc. reflexivity.
+  - exists Etot1. unfold m'. rewrite mon_step_eq. cbn [m_step m_acks m_cur]. fold o. rewrite Hnc. cbn [snd].
+    split; [rewrite T6; exact Hb|exact T4].
+Qed.
+
+Lemma F2_impl_in {A B} (R R' : A -> B -> Prop) l1 l2 :
+  (forall a b, In a l1 -> R a b -> R' a b) -> Forall2 R l1 l2 -> Forall2 R' l1 l2.
+Proof.
+  intros H F. induction F as [|a b l l' Hab F IH]; constructor.
+  - apply H; [left; reflexivity|exact Hab].
+  - apply IH. intros a0 b0 Hi. apply H. right. exact Hi.
+Qed.
+
+Lemma not_syncing_nos p : nos p = true -> match p with PSyncing _ _ => true | _ => false end = false.
+Proof. destruct p; try reflexivity. discriminate. Qed.
+
+(** ---- one operation: the coverage relation is preserved, clauses 4 and 6 stay silent ---- *)
+Lemma rel2_step rem m x op rw x1 res x2 :
+  rel2 (S rem) m x -> tri cfg op x x1 res -> do_op cfg op x = Ok (x1, res) -> quiesce cfg 64 rw x1 = Ok x2 ->
+  rel2 rem (mon_step (c_interval cfg) m op (enc_obs res x2)) x2 /\ ms_v46 m op (enc_obs res x2) = [].
+Proof.
+  intros R2 T Hd Hq. pose proof R2 as [R [gs0 C0] [S1 S2] Hnwr0 _].
+  set (o := enc_obs res x2).
+  destruct (rel1_step _ _ _ _ _ m x op rw x1 res x2 R T Hq) as [R1' _].
+  destruct (rel1_mid _ _ _ _ _ m x op x1 res x2 R T) as [G1 M].
+  destruct (cov_op rem m x op x1 res x2 R2 T Hd) as [gs1 [Etot1 [C [Hb [W [Hnw [Hv46 Hfresh]]]]]]].
+  fold o in C, Hb, W, Hv46, Hfresh.
+  split; [|exact Hv46].
+  pose proof (quiesce_traj _ _ _ _ _ _ _ _ _ G1 Hq) as Q.
+  destruct (quiesce_ind cfg alloc oldest init t0 (fun _ => True) (fun _ _ _ _ _ _ _ => I) 64 rw x1 x2 G1 I Hq) as [_ G2].
+  destruct (reachable_inv_all _ _ _ _ _ _ (proj1 G2)) as [_ [_ [I32 _]]].
+  pose proof (series_eq m op res x1 x2 M Q) as Hser. fold o in Hser.
+  pose proof (good_inv1 _ _ _ _ _ _ G1) as II1.
+  destruct (reachable_linv _ _ _ _ _ _ (proj1 G1)) as [_ LL1].
+  assert (Ess : ms_series m op o = if entered x1 x2 then m_step m else m_series_start m).
+  { unfold ms_series. rewrite Hser. reflexivity. }
+  destruct (syncret_cases m x op x1 res x2 R T) as [[Hok [k [f [Ex1 [Enw1 [Ecnt E5]]]]]]|[Hok Hnret]]; fold o in Hok.
+  - (* NotifySyncCompleted comes first *)
+    assert (Elo : ms_last_ok m op o = Some (m_series_start m)) by (unfold ms_last_ok; rewrite Hok; reflexivity).
+    assert (Ep1 : s_p (x_sys x1) = PSyncRet k f) by (rewrite Ex1; reflexivity).
+    assert (Hold : forall k0, In k0 (ms_acks m op o) -> k_step k0 < m_step m).
+    { destruct Hfresh as [H|[_ [_ H]]]; [exact H|lia]. }
+    assert (Hri : r_internal cfg (x_sys x1) = false).
+    { rewrite Ex1, r_internal_with_p. apply (r1_quiet _ _ _ _ _ _ _ R). }
+    assert (Hpi : p_internal cfg (x_sys x1) = true).
+    { unfold p_internal, p_in_io, p_in_timer, enabled. cbn [step]. unfold pstep. rewrite Ep1. cbn.
+      destruct (negb k && negb f); reflexivity. }
+    assert (Hpick : pick_of cfg rw (x_sys x1) = Some TP).
+    { unfold pick_of. rewrite Hri, Hpi. reflexivity. }
+    change 64 with (S 63) in Hq. rewrite quiesce_S, Hpick in Hq.
+    destruct (tstep cfg TP internal_ans x1) as [[x1'|]|] eqn:Et.
+    2:{ exfalso. exact (tstep_nopanic cfg alloc oldest init t0 TP internal_ans x1 G1 Et). }
+    2:{ exfalso. unfold tstep in Et. pose proof (internal_enabled cfg (x_sys x1) TP Hpi) as Hen.
+        destruct (step cfg (x_sys x1) (EStep TP internal_ans)) as [[s'|]|]; try discriminate. congruence. }
+    destruct (tstep_ok _ _ _ _ _ Et) as [Hs' [[Ec1 [Ec2 Ec3]] [Hwr' _]]].
+    assert (Hwr1 : x_nwr x1' = x_nwr x1).
+    { rewrite Hwr'. unfold at_getstate. rewrite Ep1. reflexivity. }
+    pose proof (step_good _ _ _ _ _ _ _ _ G1 Hs') as G1'.
+    pose proof (step_act _ _ _ _ Hs') as Ha. cbn [act_of] in Ha. rewrite Ep1 in Ha.
+    set (b := negb k && negb f) in *.
+    pose proof (int_fields _ _ _ Ha) as [Foffs Fseeds]. cbn [step] in Hs'.
+    destruct (pstep_shape _ _ _ _ II1 Hs') as [_ [_ [Sh _]]]. rewrite Ep1 in Sh.
+    pose proof (internal_act_tr cfg _ TP _ _ Hs') as Ftr.
+    pose proof (thr_uploads cfg _ TP _ _ II1 Hs') as Fup.
+    set (gsS := map (g_next (ASyncDone b) (s_pbl (x_sys x1))) gs1).
+    assert (Hsub : forall t st, written_state (x_sys x1') t = Some st -> written_state (x_sys x1) t = Some st).
+    { intros t st Hw. destruct t.
+      - rewrite <- (written_frame cfg _ TP _ _ TR II1 Hs') by discriminate. exact Hw.
+      - destruct (written_new cfg _ TP _ _ _ Hs' II1 Hw) as [H|H]; [exact H|].
+        unfold at_getstate in H. rewrite Ep1 in H. discriminate. }
+    destruct C as [C1 C2 C3 C4 C5 C6 C7 C8].
+    assert (CS : covx (S (m_step m)) (Some (m_series_start m)) (if b then m_step m else m_series_start m)
+                      (fst (ms_bp m op o)) (ms_popped m op o) (ms_upl m op o) (ms_acks m op o) gsS x1').
+    { unfold covx. rewrite Fup, Ec3, Ec1. constructor; auto.
+      - rewrite Foffs. exact C1.
+      - rewrite Ftr. exact C2.
+      - apply (F2_next _ _ _ _ _ (proj1 II1) LL1 Ha C7).
+      - apply F2_map_r. eapply F2_impl_in; [|exact C8]. intros k0 g Hin [H1 [H2 H3]].
+        unfold g_next. cbn [g_o g_lv]. splits; auto. rewrite H3. apply lvl_done; auto. }
+    assert (Hnos : b = false -> nos (s_p (x_sys x1')) = true).
+    { intros Hbf. destruct Sh as [[-> [-> _]]|[_ ->]]; [discriminate Hbf|reflexivity]. }
+    assert (Hent' : entered x1' x2 = false).
+    { unfold entered. destruct Sh as [[_ [_ Sh]]|[Hkf Sh]].
+      - unfold is_syncing. rewrite Sh. reflexivity.
+      - assert (nos (s_p (x_sys x1')) = true) as Hn by (rewrite Sh; reflexivity).
+        pose proof (nos_traj _ _ _ _ G1' Hn Hq) as Hn2. unfold is_syncing. rewrite (not_syncing_nos _ Hn2). apply andb_false_r. }
+    assert (Hent : entered x1 x2 = b).
+    { unfold entered, is_syncing. rewrite Ep1. cbn [negb andb]. destruct Sh as [[-> [-> Sh]]|[Hkf Sh]].
+      - pose proof (quiesce_traj _ _ _ _ _ _ _ _ _ G1' Hq) as Q'. pose proof (q_nsy _ _ Q') as Q5.
+        unfold is_syncing in Q5. rewrite Sh in Q5. destruct Q5 as [_ Q5]. rewrite Q5. reflexivity.
+      - assert (nos (s_p (x_sys x1')) = true) as Hn by (rewrite Sh; reflexivity).
+        pose proof (nos_traj _ _ _ _ G1' Hn Hq) as Hn2. rewrite (not_syncing_nos _ Hn2).
+        unfold b. destruct Hkf as [-> | ->]; try destruct k; try destruct f; reflexivity. }
+    assert (HB : length (epochSeeds (s_pbl (x_sys x1'))) < N.to_nat M32) by (rewrite Fseeds; lia).
+    assert (HL : Forall2 (fun k0 g => g_lv g = 2 <-> should (ms_last_ok m op o) k0 = true) (ms_acks m op o) gsS).
+    { rewrite Elo. eapply F2_impl2; [|exact (cv_acks2 _ _ _ _ _ _ _ _ _ _ _ _ CS)].
+      intros k0 g [_ [_ H3]]. rewrite H3. apply lvl2_iff. }
+    assert (HJ : forall j0, ms_last_ok m op o = Some j0 -> j0 <= S (m_step m)).
+    { rewrite Elo. intros j0 E. inversion E; subst. lia. }
+    assert (CT0 : ctraj (ms_acks m op o) gsS (ms_cur0 m op o) (ms_last_ok m op o) (ms_popped m op o) Etot1 (S (m_step m)) x1' x1').
+    { apply ctraj_refl.
+      - exact (cv_acks _ _ _ _ _ _ _ _ _ _ _ _ CS).
+      - intros k' f' E. destruct Sh as [[_ [_ Sh]]|[_ Sh]]; rewrite Sh in E; discriminate.
+      - pose proof (Wp_act (ms_acks m op o) Etot1 (S (m_step m)) (x_sys x1) (x_sys x1') (ms_cur0 m op o) _ (proj1 II1) Ha Hsub W) as W'.
+        cbn [popc] in W'. rewrite Nat.add_0_r in W'. exact W'. }
+    pose proof (quiesce_ctraj cfg alloc oldest init t0 _ _ _ _ _ _ _ x1' HB (zm_of_cov _ _ _ _ _ _ _ _ _ _ _ _ CS) HL HJ
+                              63 rw x2 G1' CT0 Hq) as CT.
+    apply (finish2 rem m op res x1' x2 gsS Etot1 _ _ R1' CS CT I32).
+    + rewrite Hent'. fold o. rewrite Elo, Ess, Hent. eapply F2_impl2; [|exact (cv_acks2 _ _ _ _ _ _ _ _ _ _ _ _ CS)].
+      intros k0 g [_ [_ H3]]. exact H3.
+    + rewrite Fseeds. exact Hb.
+    + congruence.
+    + fold o. rewrite Ess. destruct (entered x1 x2); lia.
+    + fold o. rewrite Elo, Ess. intros j E. inversion E; subst. destruct (entered x1 x2); lia.
+  - (* no sync completion in this operation *)
+    assert (Elo : ms_last_ok m op o = m_last_ok_start m) by (unfold ms_last_ok; rewrite Hok; reflexivity).
+    assert (HB : length (epochSeeds (s_pbl (x_sys x1))) < N.to_nat M32) by lia.
+    assert (HL : Forall2 (fun k0 g => g_lv g = 2 <-> should (ms_last_ok m op o) k0 = true) (ms_acks m op o) gs1).
+    { rewrite Elo. eapply F2_impl2; [|exact (cv_acks2 _ _ _ _ _ _ _ _ _ _ _ _ C)].
+      intros k0 g [_ [_ H3]]. rewrite H3. apply lvl2_iff. }
+    assert (HJ : forall j0, ms_last_ok m op o = Some j0 -> j0 <= S (m_step m)).
+    { rewrite Elo. intros j0 E. specialize (S2 j0 E). lia. }
+    assert (CT0 : ctraj (ms_acks m op o) gs1 (ms_cur0 m op o) (ms_last_ok m op o) (ms_popped m op o) Etot1 (S (m_step m)) x1 x1).
+    { apply ctraj_refl; [exact (cv_acks _ _ _ _ _ _ _ _ _ _ _ _ C)|exact Hnret|exact W]. }
+    pose proof (quiesce_ctraj cfg alloc oldest init t0 _ _ _ _ _ _ _ x1 HB (zm_of_cov _ _ _ _ _ _ _ _ _ _ _ _ C) HL HJ
+                              64 rw x2 G1 CT0 Hq) as CT.
+    apply (finish2 rem m op res x1 x2 gs1 Etot1 _ _ R1' C CT I32).
+    + fold o. rewrite Elo, Ess. destruct (entered x1 x2) eqn:Ee.
+      * assert (Hold : forall k0, In k0 (ms_acks m op o) -> k_step k0 < m_step m).
+        { destruct Hfresh as [H|[Hp [Hc _]]]; [exact H|exfalso].
+          rewrite (no_entry_fin m x x1 64 rw x2 R G1 Hp Hc Hq) in Ee. discriminate. }
+        eapply F2_impl_in; [|exact (cv_acks2 _ _ _ _ _ _ _ _ _ _ _ _ C)]. intros k0 g Hin [_ [_ H3]].
+        cbn [lift g_lv]. rewrite H3. symmetry. apply lvl_enter. apply Hold. exact Hin.
+      * eapply F2_impl2; [|exact (cv_acks2 _ _ _ _ _ _ _ _ _ _ _ _ C)]. intros k0 g [_ [_ H3]]. exact H3.
+    + exact Hb.
+    + exact Hnw.
+    + fold o. rewrite Ess. destruct (entered x1 x2); lia.
+    + fold o. rewrite Elo, Ess. intros j E. specialize (S2 j E). destruct (entered x1 x2); lia.
+Qed.
+
+End C46.
